@@ -14,6 +14,7 @@ import (
 	"math"
 	"os"
 	"reflect"
+	"runtime"
 	"strconv"
 	"strings"
 )
@@ -181,9 +182,32 @@ func NoPanic(label string, f func()) (ok bool) {
 	return true
 }
 
+// AllocLimitSlots is the active allocation limit (0 = monitor off).
 var AllocLimitSlots int
+var allocBase uint64
 
-func AllocLimit(n int)                               { AllocLimitSlots = n }
+// AllocLimit(n>0) starts monitoring allocation by go-ucfg code against a limit
+// of n list slots; AllocLimit(0) ends the monitored region. Natively only gross
+// violations are observable (bytes allocated in the region).
+func AllocLimit(n int) {
+	var ms runtime.MemStats
+	runtime.ReadMemStats(&ms)
+	if AllocLimitSlots > 0 {
+		CheckAlloc(ms.TotalAlloc)
+	}
+	AllocLimitSlots = n
+	allocBase = ms.TotalAlloc
+}
+
+// CheckAlloc compares the bytes allocated since the region began with the limit.
+func CheckAlloc(now uint64) {
+	if lim := AllocLimitSlots; lim > 0 {
+		if grown := now - allocBase; grown > uint64(lim)*16*4+(8<<20) {
+			Failures = append(Failures, "alloc-limit")
+			fmt.Printf("ALLOC alloc-limit: %d bytes allocated in a region limited to %d slots\n", grown, lim)
+		}
+	}
+}
 func ReadOnlyBegin(label string, roots ...interface{}) {}
 func ReadOnlyEnd()                                   {}
 func PermuteMaps(on bool)                            {}
